@@ -337,7 +337,7 @@ def sweep_interrupts(spec, accept=None, n_positions=24, post=None):
     return merge_records(recs, "interrupt", positions)
 
 
-def sweep_depth1(spec, accept=None, n_positions=24, post=None):
+def sweep_depth1(spec, accept=None, n_positions=24, post=None, a_task=None, only_inside=None):
     """two tasks: task A runs to its i-th pre-emption point, task B to completion, then A resumes - for i on a
     stride through all of A's points (a probabilistic scheduler reaches a given single pre-emption only by luck)"""
     import random
@@ -349,8 +349,12 @@ def sweep_depth1(spec, accept=None, n_positions=24, post=None):
     base["roles"] = {k: v for k, v in (base.get("roles") or {}).items() if k in ("0", "1")}
     rng = random.Random(spec["seed"] ^ 0xD1)
     a, b = (0, 1) if rng.random() < 0.5 else (1, 0)
+    if a_task is not None:
+        a, b = a_task, 1 - a_task
     s0 = copy.deepcopy(base)
     s0["schedule"] = [[a, 1 << 60]]           # A to completion, then B
+    if only_inside:
+        s0["record_where_task"] = a
     hist, viol, stats = run_spec(s0, accept)
     if post:
         viol = post(s0, hist, viol)
@@ -358,6 +362,13 @@ def sweep_depth1(spec, accept=None, n_positions=24, post=None):
     ev_a = sum(n for t, n in hist["schedule"] if t == a)
     stride = max(1, ev_a // n_positions)
     positions = list(range(1 + rng.randrange(stride), ev_a, stride))[:n_positions + 2]
+    if only_inside:
+        # every pre-emption point at which A is inside one of the named functions themselves (not their helpers)
+        inside = [k + 1 for k, fn in enumerate(hist.get("where_log") or []) if fn in only_inside]
+        if len(inside) > n_positions:
+            st = len(inside) / float(n_positions)
+            inside = [inside[int(k * st)] for k in range(n_positions)]
+        positions = inside
     for i in positions:
         s = copy.deepcopy(base)
         s["schedule"] = [[a, i], [b, 1 << 60]]
